@@ -22,7 +22,7 @@ def sh(cmd, **kw):
 
 def evaluate(d):
     sid = os.path.basename(d.rstrip("/"))
-    if only and sid not in only and not any(sid.startswith(o) for o in only):
+    if only and sid not in only and not any(sid.startswith(o) or ("-" + o + "-") in sid or ("-" + o) in sid for o in only):
         return None
     meta = json.load(open(os.path.join(d, "meta.json")))
     checks = meta.get("checks") or [meta["property"]]
@@ -40,7 +40,7 @@ def evaluate(d):
                 return (sid, "PATCH-DOES-NOT-APPLY", ap.stderr.strip()[:80], "", 0)
         t = sh(["/venv/bin/python", "-m", "pytest", "-q", "-p", "no:cacheprovider", "--continue-on-collection-errors"], env=env, cwd=tmp)
         last = t.stdout.strip().splitlines()[-1] if t.stdout.strip() else "?"
-        tests = "tests-pass" if "352 passed, 3 errors" in last else "TESTS:" + last[:30]
+        tests = "tests-pass" if ("352 passed" in last and "3 errors" in last and "failed" not in last) else "TESTS:" + last[:30]
         broken = sh(["/venv/bin/python", demo], env=env, cwd=tmp)
         demo_s = f"demo clean={clean.returncode} patched={broken.returncode}"
         t0 = time.time()
